@@ -240,6 +240,29 @@ def ops_script(ops):
                 fobj = b.objs[name] if name else None
                 events.append(observe.exec_op(o, oid, op, b.model, naming, fobj, seqno=k + 2))
                 events.append(observe.exec_op(observe.new_op(op), 900 + oid, op, b.model, naming, fobj, seqno=k + 2))
+        # a model a READER built (the library's own document of this model, JSON or UVL in turn): the operations on it
+        hh = int(hashlib.md5(repr(case['hist']).encode()).hexdigest(), 16)
+        if not edits_of(case) and hh % 4 == 0 and all(f['ftype'] == 'Boolean' for f in case['model']['feats']):
+            fmt = 'json' if hh % 8 == 0 else 'uvl'
+            wev, path, _ = formats.write_event(fmt, b.model, naming)
+            if wev['out'] == 'value':
+                rev, model2 = formats.read_event(fmt, path, naming)
+                if rev['out'] == 'value' and model2 is not None and not rev['anom']:
+                    events += [wev, rev]
+                    feats2 = {}
+                    stack = [model2.root]
+                    while stack:
+                        f = stack.pop()
+                        feats2[naming.abs(f.name)] = f
+                        for r in f.relations:
+                            stack.extend(r.children)
+                    for o, oid, op, name in objs:
+                        if name is not None and name not in feats2:
+                            continue
+                        events.append(observe.exec_op(observe.new_op(op), 700 + oid, op, model2, naming, feats2[name] if name else None, seqno=9))
+            if os.path.exists(path):
+                os.remove(path)
+            return events, None
         # the SAME model object, edited in place, analysed again by the SAME operation objects
         if not edits_of(case) and hash(repr(case['hist'])) % 3 == 0:
             edited = flip_first_relation(case, b)
